@@ -39,8 +39,10 @@ const (
 	kTuple
 	kExt // Z returned by an external call: coerced by context
 	kNil
-	kFloat // an IEEE float, carried as an integer code; every operation on it leaves the translated code
-	kFMat  // [][]float32 field: kept outside, read and written through external calls
+	kFloat  // an IEEE float, carried as an integer code; every operation on it leaves the translated code
+	kFMat   // [][]float32 field: kept outside, read and written through external calls
+	kTok    // a pointer to something outside the translation, carried as an integer token (0 = nil)
+	kStrTok // a string carried as an integer token (units whose strings come from the outside world)
 )
 
 type ty struct {
@@ -54,7 +56,7 @@ type ty struct {
 
 func (t ty) coq() string {
 	switch t.k {
-	case kInt, kErr, kHandle, kTime, kExt, kNil, kFloat:
+	case kInt, kErr, kHandle, kTime, kExt, kNil, kFloat, kTok, kStrTok:
 		return "Z"
 	case kBool:
 		return "bool"
@@ -78,7 +80,7 @@ func (t ty) coq() string {
 
 func (t ty) zero() string {
 	switch t.k {
-	case kInt, kErr, kTime, kExt, kFloat:
+	case kInt, kErr, kTime, kExt, kFloat, kTok, kStrTok:
 		return "0"
 	case kHandle:
 		return "(-1)"
@@ -114,6 +116,8 @@ type unit struct {
 	funcs   []string // package-level functions translated in this unit
 	imports []string // earlier units whose structs are visible
 	skip    map[string]bool
+	opaque  []string // type expressions (source text) carried as tokens
+	strTok  bool     // strings are tokens handed around by the outside world
 }
 
 type world struct {
@@ -121,6 +125,7 @@ type world struct {
 	funcs   map[string]*ast.FuncDecl // package-level functions by name
 	consts  map[string]ast.Expr
 	ok      map[string]bool // successfully translated definitions (Coq names)
+	cur     *unit
 	sigs    map[string]sig
 }
 
@@ -145,6 +150,17 @@ func coqIdent(s string) string {
 }
 
 func (w *world) goType(e ast.Expr) ty {
+	if w.cur != nil {
+		txt := exprString(e)
+		for _, o := range w.cur.opaque {
+			if o == txt {
+				return ty{k: kTok}
+			}
+		}
+		if w.cur.strTok && txt == "string" {
+			return ty{k: kStrTok}
+		}
+	}
 	switch x := e.(type) {
 	case *ast.Ident:
 		switch x.Name {
@@ -328,7 +344,16 @@ func (f *fnTr) path(e ast.Expr) string {
 }
 
 func coqString(s string) string {
-	return "\"" + strings.ReplaceAll(s, "\"", "\"\"") + "\"%string"
+	q := func(x string) string { return "\"" + strings.ReplaceAll(x, "\"", "\"\"") + "\"" }
+	if !strings.Contains(s, "\n") {
+		return q(s) + "%string"
+	}
+	// Coq string literals have no escapes: a line feed is spliced in (GoSem.nl)
+	var parts []string
+	for _, p := range strings.Split(s, "\n") {
+		parts = append(parts, q(p))
+	}
+	return "(" + strings.Join(parts, " ++ nl ++ ") + ")%string"
 }
 
 // ---------------------------------------------------------------------------------------
@@ -352,7 +377,7 @@ func (f *fnTr) asBool(v val) string {
 
 func (f *fnTr) asArg(v val, src ast.Expr) string {
 	switch v.t.k {
-	case kInt, kErr, kTime, kExt, kFloat:
+	case kInt, kErr, kTime, kExt, kFloat, kTok, kStrTok:
 		return "AInt " + v.code
 	case kBool:
 		return "ABool " + v.code
@@ -406,7 +431,7 @@ func (f *fnTr) pure(e ast.Expr, en env) bool {
 				}
 			}
 		case *ast.BasicLit:
-			if x.Kind == token.FLOAT {
+			if x.Kind == token.FLOAT || (x.Kind == token.STRING && f.u.strTok) {
 				p = false
 			}
 		case *ast.Ident:
@@ -486,6 +511,10 @@ func (f *fnTr) expr(e ast.Expr, en env, k func(val, env) string) string {
 			if err != nil {
 				fail("string literal %s", x.Value)
 			}
+			if f.u.strTok {
+				t := f.newTmp()
+				return fmt.Sprintf("%s <- call_ext ext \"str.lit\"%%string [AStr %s] ;;\n%s", t, coqString(s), k(val{t, ty{k: kStrTok}}, en))
+			}
 			return k(val{coqString(s), ty{k: kStr}}, en)
 		}
 		fail("literal %s", x.Value)
@@ -505,6 +534,9 @@ func (f *fnTr) expr(e ast.Expr, en env, k func(val, env) string) string {
 		if c, ok := f.w.consts[x.Name]; ok {
 			if v, ok := eval(c, f.w.consts); ok {
 				return k(val{fmt.Sprintf("(%d)", v), ty{k: kInt}}, en)
+			}
+			if bl, ok := c.(*ast.BasicLit); ok && bl.Kind == token.STRING {
+				return f.expr(bl, en, k)
 			}
 		}
 		fail("unknown identifier %s", x.Name)
@@ -543,6 +575,7 @@ func (f *fnTr) expr(e ast.Expr, en env, k func(val, env) string) string {
 			if cl, ok := x.X.(*ast.CompositeLit); ok {
 				return f.composite(cl, en, k)
 			}
+			return f.expr(x.X, en, k) // &v: the variable (structs are passed by reference to the outside)
 		}
 		switch x.Op {
 		case token.NOT:
@@ -673,6 +706,17 @@ func (f *fnTr) binary(x *ast.BinaryExpr, en env, k func(val, env) string) string
 					})
 				})
 			}
+			if (a.t.k == kStrTok || b.t.k == kStrTok) && (op == token.ADD || op == token.EQL || op == token.NEQ) {
+				nm := map[token.Token]string{token.ADD: "str.concat", token.EQL: "str.eq", token.NEQ: "str.eq"}[op]
+				t := f.newTmp()
+				rc, rt := t, ty{k: kStrTok}
+				if op == token.EQL {
+					rc, rt = "(z_to_bool "+t+")", ty{k: kBool}
+				} else if op == token.NEQ {
+					rc, rt = "(negb (z_to_bool "+t+"))", ty{k: kBool}
+				}
+				return fmt.Sprintf("%s <- call_ext ext %s [AInt %s; AInt %s] ;;\n%s", t, coqString(nm), a.code, b.code, k(val{rc, rt}, en))
+			}
 			switch op {
 			case token.ADD, token.SUB, token.MUL:
 				if op == token.ADD && (a.t.k == kStr) != (b.t.k == kStr) {
@@ -699,6 +743,10 @@ func (f *fnTr) binary(x *ast.BinaryExpr, en env, k func(val, env) string) string
 					c = fmt.Sprintf("(Bool.eqb %s %s)", f.asBool(a), f.asBool(b))
 				case a.t.k == kStr || b.t.k == kStr:
 					c = fmt.Sprintf("(String.eqb %s %s)", a.code, b.code)
+				case a.t.k == kTok && b.t.k == kNil:
+					c = fmt.Sprintf("(%s =? 0)", a.code)
+				case a.t.k == kNil && b.t.k == kTok:
+					c = fmt.Sprintf("(%s =? 0)", b.code)
 				case a.t.k == kHandle && b.t.k == kNil:
 					c = fmt.Sprintf("(%s =? (-1))", a.code)
 				case a.t.k == kNil && b.t.k == kHandle:
@@ -982,6 +1030,16 @@ func (f *fnTr) call(c *ast.CallExpr, en env, k func(val, env) string) string {
 			return rec(i+1, en)
 		})
 	}
+	// a method called on a token (a pointer or string of the outside world): the token is the first argument
+	if sel, ok := c.Fun.(*ast.SelectorExpr); ok && !f.isOpaque(sel.X, en) && f.translatable(sel.X, en) {
+		if kd := f.kindOf(sel.X, en); kd == kTok || kd == kStrTok || (kd == kExt && f.u.strTok) {
+			return f.expr(sel.X, en, func(h val, en env) string {
+				name = "obj." + sel.Sel.Name
+				parts = append(parts, "AInt "+h.code)
+				return rec(0, en)
+			})
+		}
+	}
 	// a method called on a frame handle: the handle is the first argument
 	if sel, ok := c.Fun.(*ast.SelectorExpr); ok && !f.isOpaque(sel.X, en) && f.translatable(sel.X, en) && f.kindOf(sel.X, en) == kHandle {
 		return f.expr(sel.X, en, func(h val, en env) string {
@@ -1194,6 +1252,13 @@ func (f *fnTr) coerceResult(v val, want ty) string {
 		if v.t.k == want.k {
 			return v.code
 		}
+	case kTok, kStrTok:
+		if v.t.k == want.k || v.t.k == kExt {
+			return v.code
+		}
+		if v.t.k == kNil {
+			return "0"
+		}
 	}
 	fail("cannot return a value of kind %d where kind %d is expected (%s)", v.t.k, want.k, v.code)
 	return ""
@@ -1301,7 +1366,7 @@ func (f *fnTr) block(items []item, en env, defers []deferred) string {
 			t = f.w.goType(vs.Type)
 		}
 		if t.k == kUnknown {
-			fail("variable %s of untranslated type", name.Name)
+			return f.block(rest, en.bind(binding{goName: name.Name, coq: f.declName(name), t: ty{k: kUnknown}}), defers)
 		}
 		cn := f.declName(name)
 		return fmt.Sprintf("let %s := %s in\n", cn, t.zero()) + f.block(rest, en.bind(binding{goName: name.Name, coq: cn, t: t}), defers)
@@ -1576,10 +1641,11 @@ func (f *fnTr) assign(s *ast.AssignStmt, rest []item, en env, defers []deferred)
 						return fmt.Sprintf("%s <- call_ext ext %s [AFrame %s; %s] ;;\n%s", t, coqString("Frame.Status.set."+sel.Sel.Name), h.code, f.asArg(v, rhs), f.block(rest, en, defers))
 					})
 				}
-				// a field outside the translation: the value was evaluated (for what it does), nothing is stored
+				// a field outside the translation: the outside world is told
 				if _, _, ok := f.fieldPath(sel, en); !ok {
 					if rootIdent(sel) != "" {
-						return f.block(rest, en, defers)
+						t := f.newTmp()
+						return fmt.Sprintf("%s <- call_ext ext %s [%s] ;;\n%s", t, coqString("set:"+f.path(sel)), f.asArg(v, rhs), f.block(rest, en, defers))
 					}
 				}
 			}
@@ -1608,6 +1674,39 @@ func (f *fnTr) assign(s *ast.AssignStmt, rest []item, en env, defers []deferred)
 	// a, b := g(...)
 	if len(s.Rhs) == 1 && len(s.Lhs) > 1 {
 		return f.expr(s.Rhs[0], en, func(v val, en env) string {
+			if v.t.k == kExt {
+				// results of a call that leaves the translation: the first is the call's answer, the
+				// others are asked for by position
+				call, _ := s.Rhs[0].(*ast.CallExpr)
+				if call == nil {
+					fail("tuple assignment from %s", exprString(s.Rhs[0]))
+				}
+				base := f.path(call.Fun)
+				code := ""
+				for i, l := range s.Lhs {
+					id, ok := l.(*ast.Ident)
+					if !ok {
+						fail("tuple assignment target %s", exprString(l))
+					}
+					src := v.code
+					if i > 0 {
+						t := f.newTmp()
+						code += fmt.Sprintf("%s <- call_ext ext %s [] ;;\n", t, coqString(fmt.Sprintf("%s#%d", base, i)))
+						src = t
+					}
+					if id.Name == "_" {
+						continue
+					}
+					if b, exists := en.lookup(id.Name); exists && (s.Tok != token.DEFINE || f.sameScope(en, id.Name)) {
+						code += fmt.Sprintf("let %s := %s in\n", b.coq, src)
+						continue
+					}
+					cn := f.declName(id)
+					code += fmt.Sprintf("let %s := %s in\n", cn, src)
+					en = en.bind(binding{goName: id.Name, coq: cn, t: ty{k: kExt}})
+				}
+				return code + f.block(rest, en, defers)
+			}
 			if v.t.k != kTuple || len(v.t.elems) != len(s.Lhs) {
 				fail("tuple assignment from %s", exprString(s.Rhs[0]))
 			}
@@ -2045,6 +2144,7 @@ func translateUnits(repo, outdir string, units []*unit) error {
 			}
 		}
 		w.consts = unitConsts
+		w.cur = u
 		// pass 1: struct names (so that field types can refer to each other)
 		decls := map[string]*ast.StructType{}
 		for _, af := range files {
@@ -2251,6 +2351,9 @@ var fnUnits = []*unit{
 		funcs: []string{"isAffectedByFFC", "absDiff", "warmerDiff", "NewMotionDetector"}, imports: []string{"FrameLoop"}, skip: map[string]bool{}},
 	{name: "ThrottledRecorder", dir: "throttle", files: []string{"throttled_recorder.go"}, structs: []string{"ThrottledRecorder"},
 		funcs: []string{"NewThrottledRecorder", "NewThrottledRecorderWithClock"}, skip: map[string]bool{}},
+	{name: "FileRecorder", dir: "cmd/thermal-recorder", files: []string{"cptvfilerecorder.go", "main.go"}, structs: []string{"CPTVFileRecorder"},
+		funcs: []string{"newRecordingTempName", "renameTempRecording", "recordingFinalName", "checkDiskSpace", "NewCPTVFileRecorder"},
+		skip:  map[string]bool{}, opaque: []string{"*cptv.FileWriter"}, strTok: true},
 	{name: "LogLimiter", dir: "loglimiter", files: []string{"loglimiter.go"}, structs: []string{"LogLimiter"},
 		skip: map[string]bool{"LogLimiter.Printf": true}},
 }
@@ -2427,7 +2530,7 @@ func (f *fnTr) zeroRecord(name string) string {
 func (f *fnTr) composite(cl *ast.CompositeLit, en env, k func(val, env) string) string {
 	t := f.w.goType(cl.Type)
 	if t.k != kStruct {
-		fail("composite literal of %s", exprString(cl.Type))
+		return k(val{"tt", ty{k: kUnknown}}, en) // a value of a type outside the translation
 	}
 	si := f.w.structs[t.name]
 	given := map[string]ast.Expr{}
